@@ -1,5 +1,5 @@
 #!/usr/bin/env python3
-"""Regenerates MANIFEST.json from the table below (keeps it valid at all times).""
+"""Regenerates MANIFEST.json from the table below (keeps it valid at all times)."""
 import json
 from pathlib import Path
 
